@@ -9,20 +9,26 @@ CONSTANTS NB,        \* bases 1..NB
           MaxLevel,  \* bound on rename levels
           Inits,     \* initial trees (names in Shapes)
           Patterns,  \* subset of {"rand", "asc", "desc", "zig"}: order in which inserts pick their base
-          Emit
+          Emit       \* "leaf": print complete histories with the expectation of every step;
+                     \* "state": print every state with the expectation of its last step only (the replayer joins prefixes);
+                     \* "off": print nothing
 
-(* initial multi-level trees as nested sequences of key codes (a leaf = sequence of codes) *)
-Shapes == [ empty |-> <<>>,
-            two   |-> << <<16, 32>>, <<33, 48, 64>>, <<80, 81>> >>,
-            deep  |-> << << <<16>>, <<17, 32, 33>> >>, << <<48, 49>>, <<50, 64>>, <<65, 80, 96>> >>, << <<112, 113, 128, 144>> >> >>,
-            wide  |-> << <<16, 17, 18, 32, 48, 64>>, <<65>>, <<80, 96, 97, 112>> >> ]
-LeafShape(s) == s = <<>> \/ s[1] \in Int
+(* initial multi-level trees: L(keys) = leaf holding the key codes, N(kids) = intermediate node *)
+L(keys) == [leaf |-> keys]
+N(kids) == [kids |-> kids]
+Shapes == [ empty |-> L(<<>>),
+            one   |-> L(<<32, 48, 64>>),
+            two   |-> N(<< L(<<16, 32>>), L(<<33, 48, 64>>), L(<<80, 81>>) >>),
+            deep  |-> N(<< N(<< L(<<16>>), L(<<17, 32, 33>>) >>),
+                           N(<< L(<<48, 49>>), L(<<50, 64>>), L(<<65, 80, 96>>) >>),
+                           N(<< L(<<112, 113, 128, 144>>) >>) >>),
+            wide  |-> N(<< L(<<16, 17, 18, 32, 48, 64>>), L(<<65>>), L(<<80, 96, 97, 112>>) >>) ]
 RECURSIVE ShapeKeys(_)
-ShapeKeys(s) == IF LeafShape(s) THEN s ELSE FlattenSeq([i \in 1..Len(s) |-> ShapeKeys(s[i])])
+ShapeKeys(s) == IF "leaf" \in DOMAIN s THEN s.leaf ELSE FlattenSeq([i \in 1..Len(s.kids) |-> ShapeKeys(s.kids[i])])
 InitMap(name) == LET ks == ShapeKeys(Shapes[name]) IN [k \in {ks[i] : i \in 1..Len(ks)} |-> k]
 
-VARIABLES init, pat, pos, hist, m      \* hist = sequence of ops, m = abstract map after hist
-vars == <<init, pat, pos, hist, m>>
+VARIABLES init, pat, pos, hist, m, last      \* hist = sequence of ops, m = abstract map after hist, last = expectation of the last op
+vars == <<init, pat, pos, hist, m, last>>
 
 PatBase(p, i) ==   \* base of the i-th insert (i = 0, 1, ...) under pattern p
   LET j == i % NB IN
@@ -44,9 +50,9 @@ StepExp(mm, o, i) == LET m2 == StepMap(mm, o, i) IN
 RECURSIVE ExpsFrom(_, _, _)
 ExpsFrom(mm, h, i) == IF i > Len(h) THEN <<>> ELSE <<StepExp(mm, h[i], i)>> \o ExpsFrom(StepMap(mm, h[i], i), h, i + 1)
 
-Init == init \in Inits /\ pat \in Patterns /\ pos = 0 /\ hist = <<>> /\ m = InitMap(init)
+Init == init \in Inits /\ pat \in Patterns /\ pos = 0 /\ hist = <<>> /\ m = InitMap(init) /\ last = <<>>
 
-Do(o) == hist' = Append(hist, o) /\ m' = StepMap(m, o, Len(hist) + 1)
+Do(o) == hist' = Append(hist, o) /\ m' = StepMap(m, o, Len(hist) + 1) /\ last' = <<StepExp(m, o, Len(hist) + 1)>>
 DoAdd  == "add" \in OpKinds /\ pos' = pos + 1 /\ \E b \in AddBases : Do([op |-> "add", k |-> Code(b, 0)])
 DoAddU == "addu" \in OpKinds /\ pos' = pos + 1 /\ \E b \in AddBases : HasFree(m, b, MaxLevel) /\ Do([op |-> "addu", k |-> Code(b, 0)])
 DoRem  == "rem" \in OpKinds /\ pos' = pos /\ \E k \in {Code(b, 0) : b \in 1..NB} \cup DOMAIN m : Do([op |-> "rem", k |-> k])
@@ -62,6 +68,11 @@ ModelOK == Complete => LET e == Exps IN
              /\ (e # <<>> => e[Len(e)].keys = SortedKeys(m) /\ e[Len(e)].vals = ValsOf(m))
              /\ \A i \in 1..Len(e) : StrictlyInc(e[i].keys)
 
-EmitCase == Emit /\ Complete => PrintT(<<"CASE", ToJson([init |-> init, pat |-> pat, ops |-> hist, exp |-> Exps])>>)
-ASSUME Emit => PrintT(<<"SHAPES", ToJson(Shapes)>>)
+(* "state" mode: the expectation carried by the state is the one the stepwise evaluation gives *)
+LastOK == Complete /\ hist # <<>> => last = <<Exps[Len(hist)]>>
+
+EmitCase == CASE Emit = "leaf"  -> (Complete => PrintT(<<"CASE", ToJson([init |-> init, pat |-> pat, ops |-> hist, exp |-> Exps])>>))
+              [] Emit = "state" -> PrintT(<<"CASE", ToJson([init |-> init, pat |-> pat, ops |-> hist, exp |-> last])>>)
+              [] OTHER          -> TRUE
+ASSUME Emit # "off" => PrintT(<<"SHAPES", ToJson(Shapes)>>)
 =============================================================================
